@@ -195,6 +195,25 @@ Theorem C09_root_calls_not_skipped : forall limit (root : node) c o,
   end.
 Proof. exact (run_op_root_not_skipped pt padd pO smul pG order pt_eqb sec hmac512 hash160 loop_fuel). Qed.
 
+(* ... and over a FAMILY of related objects: the initial node, every public_copy() twin and every re-deserialised copy made
+   during the history (each a new object with its own empty cache, as BIP32Node.public_copy / deserialize build them), and
+   the objects cached below any of them.  Every answer of every history is the cache-free answer for the object it is asked
+   of (fop_raw: computed from the root node of that object by uncached derivation); in particular what one twin cached
+   never shows up in an answer of the other. *)
+Theorem C09_family_cache_transparent : forall (limit : Z) (root : node) (ops : list fop),
+  Forall2 (fun a o => snd a = FSkip pt \/
+                      snd a = fop_raw pt padd pO smul pG order pt_eqb sec unsec hmac512 hash160 loop_fuel limit (fst a) o)
+          (run_fops pt padd pO smul pG order pt_eqb sec unsec hmac512 hash160 loop_fuel limit [(root, [])] ops) ops.
+Proof.
+  exact (fun limit root ops => run_fops_ok pt padd pO smul pG order pt_eqb sec unsec hmac512 hash160 loop_fuel limit ops [(root, [])]
+           (fam_ok_single pt padd pO smul pG order pt_eqb sec hmac512 hash160 loop_fuel root)).
+Qed.
+(* the cache-free answers of a public-only node: hardened refused (C09_hardened_refused_on_public above) and never a node
+   with a secret, whatever flags are passed *)
+Theorem C09_public_never_yields_private : forall (nd : node) (i : Z) (h ap : bool) (c : node),
+  nd_secret pt nd = None -> m_subkey_raw nd i h ap = Ret c -> nd_secret pt c = None.
+Proof. exact (public_never_private pt padd pO smul pG order pt_eqb sec hmac512 hash160 loop_fuel). Qed.
+
 (* ---- C09_path_spellings ---- *)
 (* H, p and ' are interchangeable in every element of a path: same result, same cache afterwards *)
 Theorem C09_path_spellings : forall c p (nd : node) path path' fp ts ts',
@@ -301,6 +320,8 @@ Print Assumptions C09_serialize_roundtrip.
 Print Assumptions C09_text_roundtrip.
 Print Assumptions C09_cache_transparent.
 Print Assumptions C09_root_calls_not_skipped.
+Print Assumptions C09_family_cache_transparent.
+Print Assumptions C09_public_never_yields_private.
 Print Assumptions C09_path_spellings.
 Print Assumptions C09_electrum_commute.
 Print Assumptions C09_path_render.
